@@ -107,7 +107,8 @@ def run_group(repo, prop, group_names, tier, workdir, log):
 
 
 def run_one_group(repo, prop, gname, g, tier, log):
-    harnesses = [h for h in g["harnesses"] if tier == "thorough" or h.get("tier", "quick") == "quick"]
+    # tier "off": kept in the harness file for reference, never run by a registered command (did not finish within memory)
+    harnesses = [h for h in g["harnesses"] if h.get("tier", "quick") != "off" and (tier == "thorough" or h.get("tier", "quick") == "quick")]
     harnesses = [h for h in harnesses if prop in h.get("props", g.get("props", [prop]))]
     if not harnesses:
         return []
